@@ -108,6 +108,7 @@ Record Inv2 (orig : list (list op)) (s : sys) : Prop := {
             sc = S x /\ sc < length (g_states (sh s)) /\ s_ret (getst (sh s) x) = true /\
             1 <= s_ref (getst (sh s) x) + sum (fun th => nlast th x) (ths s) /\
             (forall h, In h (s_segs (getst (sh s) x)) -> In h (s_segs (getst (sh s) sc)) \/ In h hs);
+  j_nseg : forall x, s_open (getst (sh s) x) = false -> s_segs (getst (sh s) x) = [];
   j_ret : forall x, x < length (g_states (sh s)) -> s_ret (getst (sh s) x) = true -> x < g_cur (sh s);
   j_hist : forall t th, nth_error (ths s) t = Some th -> t_rot th = false ->
              exists ops, nth_error orig t = Some (ops ++ t_prog th) /\
